@@ -18,8 +18,9 @@ import (
 // Announce is one "transaction confirmed in block" notification the client put
 // into its queue; the harness keeps the log across client sessions.
 type Announce struct {
-	Tx    chainhash.Hash
-	Block chainhash.Hash
+	Tx    chainhash.Hash // zero for a disconnect or a session marker
+	Block chainhash.Hash // zero for a session marker
+	Disc  bool           // BlockDisconnected of Block
 }
 
 // nodeEvent is what the node pushes to a subscribed client (bitcoind: ZMQ
@@ -435,6 +436,7 @@ func (c *Client) Rescan(blockHash *chainhash.Hash, addrs []btcutil.Address,
 	cur := start
 	for !c.node.OnBest(cur) {
 		c.out = append(c.out, chain.BlockDisconnected{Block: wtxmgr.Block{Hash: cur.Hash, Height: cur.Height}, Time: cur.Time()})
+		c.logDisc(cur.Hash)
 		cur = c.node.BlockByHash(&cur.Msg.Header.PrevBlock)
 	}
 	for h := cur.Height + 1; int(h) < len(c.node.Best); h++ {
@@ -485,6 +487,7 @@ func (c *Client) StepRescan(n int) int {
 		for !c.node.OnBest(c.rescanCur) {
 			b := c.rescanCur
 			c.out = append(c.out, chain.BlockDisconnected{Block: wtxmgr.Block{Hash: b.Hash, Height: b.Height}, Time: b.Time()})
+			c.logDisc(b.Hash)
 			c.rescanCur = c.node.BlockByHash(&b.Msg.Header.PrevBlock)
 		}
 		if c.rescanCur.Hash == c.node.Tip().Hash {
@@ -663,7 +666,14 @@ func (c *Client) appendDisc(b *Block) []interface{} {
 	if len(c.lastDisc) > 16 {
 		c.lastDisc = c.lastDisc[1:]
 	}
+	c.logDisc(b.Hash)
 	return append(c.out, chain.BlockDisconnected{Block: wtxmgr.Block{Hash: b.Hash, Height: b.Height}, Time: b.Time()})
+}
+
+func (c *Client) logDisc(h chainhash.Hash) {
+	if c.AnnounceLog != nil {
+		*c.AnnounceLog = append(*c.AnnounceLog, Announce{Block: h, Disc: true})
+	}
 }
 
 // RepeatDisconnect queues a genuine BlockDisconnected notification a second
